@@ -87,7 +87,7 @@ OPS_CLEAN = ['copy', 'subset', 'slice-slice', 'slice-int', 'slice-list', 'apply-
 MASK_OPS = ['mask-greater', 'mask-greater_equal', 'mask-less', 'mask-less_equal', 'mask-values', 'mask-equal', 'mask-invalid',
             'mask-where-dims', 'mask-mask-dims', 'mask-where-var', 'mask-where-shape', 'mask-where-coords']
 OPS_CLEAN = OPS_CLEAN + MASK_OPS
-OPS_DEFECT = ['eval-name', 'eval-view', 'getvarpnc', 'slice_dim', 'gettimes', 'gettimes-bounds', 'val2idx-bounds', 'val2idx-bounds', 'time2idx-bounds']
+OPS_DEFECT = ['eval-name', 'eval-view', 'eval-revview', 'eval-asarray', 'eval-masked-name', 'getvarpnc', 'slice_dim', 'gettimes', 'gettimes-bounds', 'val2idx-bounds', 'val2idx-bounds', 'time2idx-bounds']
 DISK_OK = MASK_OPS + ['copy', 'subset', 'slice-slice', 'slice-int', 'apply-mean', 'renvar', 'insdim', 'rmsingle', 'mask', 'gettimes', 'gettimes-bounds',
            'date2num', 'time2idx', 'val2idx-nearest', 'val2idx-bounds', 'repr', 'dump', 'save', 'getvarpnc', 'time2idx-bounds']
 
@@ -327,18 +327,6 @@ def _op_child(case, tmp):
                'repr', 'dump', 'save')
     allops = OPS_CLEAN + [o for o in OPS_DEFECT if o not in OPS_CLEAN]
     desc = ['Query' if op in QUERIES else 'Clean', allops.index(op) if op in allops else 99]
-    if op == 'eval-name':
-        desc = ['EvalName', vid('A')]
-    if op == 'eval-view':
-        desc = ['EvalView', vid('A')]
-    if op == 'getvarpnc':
-        ck = set(f.getCoords()) | set(f.variables['A'].dimensions)
-        for k in list(ck):
-            if k in f.variables and hasattr(f.variables[k], 'bounds'):
-                ck.add(f.variables[k].bounds.strip())
-        desc = ['Getvarpnc', sorted(vid(k) for k in ck if k in f.variables) if mem else []]
-    if op == 'slice_dim':
-        desc = ['SliceDim', sorted(vid(k) for k in keys0 if 'x' in f.variables[k].dimensions)]
     before = [_snap(fi) for fi in ins]
     t0 = datetime(2000, 1, 1, 1, tzinfo=timezone.utc)
     res, raised = None, None
@@ -381,6 +369,9 @@ def _op_child(case, tmp):
             elif op == 'eval-expr': res = f.eval('C = A * 2')
             elif op == 'eval-name': res = f.eval('C = A')
             elif op == 'eval-view': res = f.eval('C = A[:]')
+            elif op == 'eval-revview': res = f.eval('C = A[::-1]')
+            elif op == 'eval-asarray': res = f.eval('C = np.asarray(A)')
+            elif op == 'eval-masked-name': res = f.eval('C = M' if 'M' in f.variables else 'C = B')
             elif op == 'getvarpnc': res = getvarpnc(f, ['A'])
             elif op == 'slice_dim': res = slice_dim(f, 'x,0,2')
             elif op == 'gettimes': f.getTimes()
@@ -456,12 +447,7 @@ def coq_term(case, obs):
         ob = '[' + '; '.join('[' + '; '.join('None' if x is None else '(Some %d%%nat)' % x for x in o) + ']' for o in obs['obs']) + ']'
         return '(HCase %s %s %s %s)' % (gs, refs, ob, C.natlist(obs['slots']))
     d = obs['desc']
-    if d[0] in ('Clean', 'Query'):
-        o = '(%s %d%%nat)' % (d[0], d[1])
-    elif d[0] in ('EvalName', 'EvalView'):
-        o = '(%s %d%%nat)' % (d[0], d[1])
-    else:
-        o = '(%s %s)' % (d[0], C.natlist(d[1]))
+    o = '(%s %d%%nat)' % (d[0], d[1])
     return '(ACase %s %s %s %s)' % (o, C.natlist(obs['aliased']), C.natlist(obs['mutated']), C.natlist(obs['later']))
 
 
@@ -542,11 +528,12 @@ LEVEL_TEXT = ('Theorems (Props/C05.v, all closed under the global context). Hand
               '(C05_close_local, full strength, induction with the ownership invariant C05_slot_ownership), one more close of any object leaves '
               'what every other open object reads untouched (C05_close_is_local_step), a repeated close is a no-op (C05_close_idempotent). Buffer '
               'heap (Model/Alias.v): fresh outputs give isolation under any later writes for any heap and cell type (C05_fresh_outputs_isolated, '
-              'C05_isolation_spec), hence for every call whose catalogued effects are empty (C05_isolation_partial), which now includes every query '
-              '(C05_queries_pure, full strength since fixes C05-getTimes-copy and the val2idx copies); eval(\'B = A\') refutes the full statement for '
-              'the transformations (C05_result_alias_refuted; known findings eval / getvarpnc / slice_dim). Tie H: handle histories (slot numbers, '
-              'what every referenced object reads after every step) and the observed mutated / shared / later-changed buffer sets of 30 calls vs. the '
-              'model; the witnesses of the repaired defects run first on every run (corpus/C05).')
+              'C05_isolation_spec; the hypothesis is needed: C05_fresh_hypothesis_needed), and since the fixes C05-eval-result-copy, '
+              'C05-getvarpnc-coord-copy, C05-slice_dim-copy, C05-getTimes-copy and the val2idx copies every catalogued transformation and query has '
+              'no effect on its inputs (C05_isolation, C05_all_calls_isolated, C05_queries_pure: full strength over the catalogue). Tie H: handle '
+              'histories (slot numbers, what every referenced object reads after every step) and the observed mutated / shared (data and mask '
+              'buffers) / later-changed buffer sets of 45 calls on plain and masked inputs vs. the model; the witnesses of all repaired defects run '
+              'first on every run (corpus/C05).')
 LEVEL_NOTE = ('Trusted: Coq kernel + vm_compute; harness; netCDF-C slot allocation (checked per object); np.shares_memory. The effect catalogue '
               'impl_effs is hand-written from the code and tied by F only. Not covered: spontaneous GC timing; updatemeta(attdict) mutating the '
               'caller\'s dict; interpvars / interpDimension / extract; arguments other than files (selectors, arrays) being modified; time2t.')
